@@ -393,6 +393,18 @@ def mk_fn(name, *args):
     if name == 'at' and len(args) == 2 and args[0][0] == 'B' and args[1][0] == 'P' and args[0][1]:
         # gathering is substitution of the axis by the index: canonical form has `at` around leaf arrays only
         return index_at(Poly.from_key(args[0][2]), args[0][1], Poly.from_key(args[1][1]))
+    if name in ('interp', 'lininterp') and len(args) >= 3 and args[0][0] == 'P' and args[1][0] == 'B':
+        # interpolation is unchanged when query and abscissa are rescaled by the same positive factor: a unit both are expressed in cancels
+        qp, xp = Poly.from_key(args[0][1]), Poly.from_key(args[1][2])
+        if not qp.is_zero() and not xp.is_zero():
+            common = None
+            for pl in (qp, xp):
+                for m in pl.t:
+                    ue = {a: e for a, e in m if a[0] == 'sym' and a[1].startswith('unit:')}
+                    common = ue if common is None else {a: e for a, e in common.items() if ue.get(a) == e}
+            if common:
+                f = Poly({tuple(sorted(((a, -e) for a, e in common.items()), key=lambda t: repr(t[0]))): Fraction(1)})
+                args = (P(qp * f), B(args[1][1], xp * f)) + tuple(args[2:])
     if name in LINEAR_FNS and len(args) > LINEAR_FNS[name] and args[LINEAR_FNS[name]][0] == 'B':
         k = LINEAR_FNS[name]
         lab, fp = args[k][1], Poly.from_key(args[k][2])
@@ -424,6 +436,29 @@ def mk_fn(name, *args):
         p = Poly.from_key(args[0][1])
         if p.is_const():
             return Poly.const(abs(p.const_value()))
+    if name == 'argsort' and len(args) == 2 and args[0][0] == 'L' and args[1][0] == 'B' and args[0][1] == args[1][1]:
+        # argsort of a permutation is its inverse: argsort(argsort(x)) == invperm(argsort(x))
+        inner = Poly.from_key(args[1][2])
+        if inner.is_monomial():
+            (m, c), = inner.t.items()
+            if c == 1 and len(m) == 1 and m[0][1] == 1 and m[0][0][0] == 'fn' and m[0][0][1] in ('argsort', 'invperm') and len(m[0][0]) == 4 and m[0][0][2] == args[0]:
+                if m[0][0][1] == 'invperm':
+                    return Poly.from_key(m[0][0][3][2])      # argsort(invperm(p)) == p
+                return Poly.atom(('fn', 'invperm') + tuple(args))
+    if name == 'invperm' and len(args) == 2 and args[0][0] == 'L' and args[1][0] == 'B' and args[0][1] == args[1][1]:
+        inner = Poly.from_key(args[1][2])
+        if inner.is_monomial():
+            (m, c), = inner.t.items()
+            if c == 1 and len(m) == 1 and m[0][1] == 1 and m[0][0][0] == 'fn' and m[0][0][1] == 'invperm' and len(m[0][0]) == 4 and m[0][0][2] == args[0]:
+                return Poly.from_key(m[0][0][3][2])          # invperm(invperm(p)) == p
+            if c == 1 and len(m) == 1 and m[0][1] == 1 and m[0][0][0] == 'fn' and m[0][0][1] == 'arange' and m[0][0][2:] == (args[0],):
+                return inner                                  # the identity permutation
+    if name == 'any' and len(args) == 1 and args[0][0] == 'B':
+        # any(not p) == not all(p): one canonical spelling for a negated conjunction
+        inner = Poly.from_key(args[0][2])
+        neg = Poly.const(1) - inner
+        if not inner.is_monomial() and neg.is_monomial() and list(neg.t.values()) == [Fraction(1)] and all(a[0] == 'ind' for a, _ in list(neg.t)[0]):
+            return Poly.const(1) - Poly.atom(('fn', 'all', ('B', args[0][1], neg.key())))
     return Poly.atom(('fn', name) + tuple(args))
 
 
@@ -689,6 +724,8 @@ def index_at(p, label, idx):
     def leaf(a):
         if idx == run:
             return Poly.atom(a)
+        if a[0] == 'fn' and a[1] == 'arange' and len(a) == 3 and a[2] == ('L', label):
+            return idx                         # arange(n)[i] == i
         return Poly.atom(('fn', 'at', ('B', label, Poly.atom(a).key()), ('P', idx.key())))
 
     def go_atom(a):
